@@ -227,7 +227,13 @@ def _mean_std(col):
         raise Undefined("no valid cells")
     mean = sum(v, F(0)) / len(v)
     var = sum(((x - mean) ** 2 for x in v), F(0)) / len(v)     # population variance
-    return mean, math.sqrt(float(var)), var
+    std = math.sqrt(float(var))
+    big = max(abs(float(x)) for x in v)
+    if var > 0 and std < 1e-9 * big:
+        # the spread of the field is at the rounding level of its values (e.g. -16.875 and -16.875000000000004 left behind by
+        # earlier commands): a z-score of such a field is decided by rounding errors, whoever computes it
+        raise Undefined("spread at rounding level: z-scores ill-conditioned")
+    return mean, std, var
 
 
 def NormalizeZScore(inputs, p, defaults=None):
